@@ -13,3 +13,4 @@ import InToto.Properties.C08
 #print axioms InToto.C08.acceptance_implies_sublayouts_accepted
 #print axioms InToto.C08.summary_is_first_materials_last_products
 #print axioms InToto.C08.recursion_bound_is_irrelevant
+#print axioms InToto.C08.facts_sublayouts_stage_position
